@@ -16,6 +16,9 @@ pub const STOP0: &str = "stop=0";
 pub const TINY: &str =
     "stop=6\n0=5-5\n1=1-1,3-3,c,8-8\n2=7-7\n3=6-6,c,9-9\n4=2-2,2-2,2-2,c,20-20\n5=40-40,c,11-11";
 pub const DEFAULT: &str = anytls_rs::padding::DEFAULT_PADDING_SCHEME;
+/// every packet line is "7-7,30-30,c,9-9": depending on the payload size a packet takes the
+/// split-payload, payload+padding, padding-only and remaining-payload branches of the shaper
+pub const BRANCHY: &str = "stop=40\n0=7-7\n1=7-7,30-30,c,9-9\n2=7-7,30-30,c,9-9\n3=7-7,30-30,c,9-9\n4=7-7,30-30,c,9-9\n5=7-7,30-30,c,9-9\n6=7-7,30-30,c,9-9\n7=7-7,30-30,c,9-9\n8=7-7,30-30,c,9-9\n9=7-7,30-30,c,9-9\n10=7-7,30-30,c,9-9\n11=7-7,30-30,c,9-9\n12=7-7,30-30,c,9-9\n13=7-7,30-30,c,9-9\n14=7-7,30-30,c,9-9\n15=7-7,30-30,c,9-9\n16=7-7,30-30,c,9-9";
 
 pub const HORIZON: Duration = Duration::from_secs(3600);
 
